@@ -87,6 +87,56 @@ def run_lattice(sh, reds, greens, blues):
                              {"expr": "rt(%d, %d, %d)" % (r, g, b), "law": name}, {"law": name, "color": "#%02x%02x%02x" % (r, g, b)})
 
 
+def run_print_denotation(sh, rng):
+    from .. import cssread
+    near = sorted({min(255, max(0, k * 17 + d)) for k in range(16) for d in (-1, 0, 1)})
+    cols = []
+    # every short-hex colour with one channel moved off the 17-grid (the decisions "can this be #rgb / a name" live here)
+    for i in [x for x in range(4096) if x % sh.nshards == sh.shard]:
+        a, b, c = ((i >> 8) & 15) * 17, ((i >> 4) & 15) * 17, (i & 15) * 17
+        cols.append((a, b, c, 1))
+        which = rng.below(3)
+        d = rng.choice([-1, 1, 2, 8])
+        t = [a, b, c]
+        t[which] = min(255, max(0, t[which] + d))
+        cols.append((t[0], t[1], t[2], 1))
+    for _ in range(300):
+        cols.append((rng.choice(near), rng.choice(near), rng.choice(near), rng.choice([1, 1, 1, 0.5, 0, 0.2])))
+    for nm, (r, g, b) in sorted(colornames.NAMES.items())[sh.shard::sh.nshards]:
+        cols.append((r, g, b, 1))
+    for style in ("compressed", "expanded"):
+        for base in range(0, len(cols), 256):
+            chunk = cols[base:base + 256]
+            decls = []
+            for i, (r, g, b, a) in enumerate(chunk):
+                if a == 1:
+                    decls.append("p%d: rgb(%d, %d, %d); q%d: #%02x%02x%02x;" % (i, r, g, b, i, r, g, b))
+                else:
+                    decls.append("p%d: rgba(%d, %d, %d, %s); q%d: #%02x%02x%02x%02x;" % (i, r, g, b, a, i, r, g, b, round(a * 255)))
+            res = sh.w.compile({"text": "a { %s }" % " ".join(decls), "style": style})
+            if "ok" not in res:
+                sh.violation("print-sheet-fails:" + style, str(res)[:300], {"style": style}, {})
+                continue
+            vals = dict(re.findall(r"([pq]\d+):\s*([^;}]+)", res["ok"]))
+            for i, (r, g, b, a) in enumerate(chunk):
+                sh.ev()
+                for k in "pq":
+                    txt = (vals.get("%s%d" % (k, i)) or "").strip()
+                    aa = a if k == "p" else (round(a * 255) / 255.0 if a != 1 else 1)
+                    want = cssread._canon_rgba(r, g, b, aa)
+                    try:
+                        have = cssread.canon_value(cssread.tokenize(txt))
+                    except cssread.CssError:
+                        have = None
+                    if have != want:
+                        sh.violation("printed-colour-denotes-another:%s:%s" % (style, txt), "rgba(%d, %d, %d, %s) is printed as `%s` in %s mode, which denotes %s" % (r, g, b, aa, txt, style, have),
+                                     {"color": [r, g, b, a], "style": style}, {"printed": txt, "style": style, "denotes": have, "want": want})
+                    else:
+                        sh.count("printed_colour_denotes_itself_" + style)
+                if len({r, g, b}) > 1:
+                    sh.nontrivial(("print", style, r, g, b, a))
+
+
 def run(sh):
     rng = sh.rng
     # --- named table + spellings (shard 0..): names split over shards
@@ -164,6 +214,10 @@ def run(sh):
     if sh.shard == 0:
         sh.sample({"named": "rebeccapurple", "expected": colornames.NAMES["rebeccapurple"]})
         sh.sample({"lattice_sheet": lattice_sheet([18], [52], [86, 87, 88])})
+
+    # --- what is printed must itself be a spelling of the same colour (both styles): the printed text is read back by
+    # the independent CSS reader and must denote exactly the channels the value has
+    run_print_denotation(sh, rng)
 
     # --- lattice round trips / laws
     if sh.tier == "quick":
